@@ -3,6 +3,7 @@
 package slip
 
 import (
+	"sort"
 	"strconv"
 )
 
@@ -103,8 +104,14 @@ func (obj HashTable) LoadForm() Object {
 		Symbol("let"),
 		List{List{tsym, List{Symbol("make-hash-table")}}},
 	}
-	for k, v := range obj {
-		form = append(form, List{Symbol("setf"), List{Symbol("gethash"), elementLoadForm(k), tsym}, elementLoadForm(v)})
+	// In the order of the printed keys so that the form is the same every time.
+	keys := make([]Object, 0, len(obj))
+	for k := range obj {
+		keys = append(keys, k)
+	}
+	sort.Slice(keys, func(i, j int) bool { return ObjectString(keys[i]) < ObjectString(keys[j]) })
+	for _, k := range keys {
+		form = append(form, List{Symbol("setf"), List{Symbol("gethash"), elementLoadForm(k), tsym}, elementLoadForm(obj[k])})
 	}
 	form = append(form, Symbol("table"))
 
